@@ -683,6 +683,16 @@ def rule_membership_answers(ctx, kind=None):
                             continue
                         for c in conditions(b, s.bb):
                             if c.is_discr:
+                                # `match list.iter().find(|a| ext.contains(a)) { Some(_) => (true, ..), None => (false, ..) }`
+                                from ..flow import on_some_arm as _osa, on_none_arm as _ona
+
+                                for o in origins(b, c.place, transparent=()):
+                                    if o.kind == "call" and callee_decl(o.data) in ("core::iter::traits::iterator::Iterator::find", "core::iter::traits::iterator::Iterator::position", "core::iter::traits::iterator::Iterator::find_map"):
+                                        clos = [prog.lib(x) for x in (o.data.get("fn_args") or [])]
+                                        contains = any(cb is not None and any(callee_decl(callee_of(x)) == "core::slice::contains" for x in cb.calls()) for cb in clos)
+                                        lk = tags.list_kind(prog, b, o.site.node["args"][0], accept_list_params(b))
+                                        if contains and lk == "FULL" and ((k["bool"] is True and _osa(c)) or (k["bool"] is False and _ona(c))):
+                                            ok = True
                                 continue
                             for o in origins(b, c.place, transparent=()):
                                 if o.kind == "call" and callee_decl(o.data) == "core::iter::traits::iterator::Iterator::any":
